@@ -19,9 +19,9 @@ from vlib import core
 
 PID = 'C14'
 META = {
-    'text': 'Theorems over a Gallina model of the 4-byte big-endian length-prefix reassembly loop (farm Hand, shelve comms Worker, LogSink) and of the legacy handshake wrapper (security.TwistedWrapper): for every byte stream and every way of cutting it into chunks the delivered payload sequence and the final reassembly state equal those of whole delivery (up to the first loseConnection/exception, which on the database channel only protocol-conformant streams never pass); frame/unframe round trip for every message list with payloads < 2^32; no delivery before phase 5 succeeds and none unless some blob passed signature check and echo comparison, bytes after the phase-5 packet are delivered afterwards in order exactly as a fresh protocol would receive them, a failed phase closes with nothing delivered ever; the handshake outcome (challenge, close, deliveries, final state) is independent of the chunking, cuts inside the packets of phases 1-5 included, for every oracle that does not validate-and-echo the empty blob (refuted without that hypothesis; real PGP cannot). The model is tied to the three real dataReceived loops and to the real wrapper by correspondence on every cut of short streams and random cuts of long streams of real pickles.',
-    'note': 'Trusted: Coq kernel; hand-written models Frame.v/Shake.v + correspondence driver drive_frame.py (fake transport honouring "no data after loseConnection", recording pickle.loads shim, table-driven PGP oracle, frozen clock/random for the challenge); Twisted delivers dataReceived calls sequentially and none after loseConnection or after an exception escaped; pickle decides decodable/closing per payload (oracles). No axioms.',
-    'technique': 'Coq proof over an executable model + model/implementation correspondence (exhaustive small scope + seeded random)',
+    'text': 'Theorems over a Gallina model of the 4-byte big-endian length-prefix reassembly loop (farm Hand, shelve comms Worker, LogSink) and of the legacy handshake wrapper (security.TwistedWrapper): for every byte stream and every way of cutting it into chunks the delivered payload sequence and the final reassembly state equal those of whole delivery (up to the first loseConnection/exception, which on the database channel only protocol-conformant streams never pass); frame/unframe round trip for every message list with payloads < 2^32; no delivery before phase 5 succeeds and none unless some blob passed signature check and echo comparison, bytes after the phase-5 packet are delivered afterwards in order exactly as a fresh protocol would receive them, a failed phase closes with nothing delivered ever; the handshake outcome (challenge, close, deliveries, final state) is independent of the chunking, cuts inside the packets of phases 1-5 included, for every oracle that does not validate-and-echo the empty blob (refuted without that hypothesis; real PGP cannot). The model is tied to the three real dataReceived loops and to the real wrapper by correspondence on every cut of short streams and random cuts of long streams of real pickles. Sender side of the log channel (TwistedHandler.emit/makeSocket on python 3.12 logging.handlers.SocketHandler makePickle/createSocket/send/emit/close, model LogSend.v), composed with one LogSink per connection: for every history of emits, closes, refused or failing connects (with records logged during the connect), failing sendall calls and clock readings, the connection the handler holds carries whole frames only and a LogSink fed its bytes in any fragmentation handles exactly the records written to it, in order (all emitted records, in order, when nothing fails); on every connection that was lost or closed any arriving prefix in any fragmentation yields a prefix of the records written to it and never a partial record; with pairwise different records none is written twice (the record of a failed send and the record emitted when the connect fails are dropped, never re-sent); each record is in exactly one of wire/dropped/queue/local; records logged during a handshake are queued and written before the next record; after one failed connect TwistedHandler keeps __shaking set and queues every later record for ever without reconnecting (C14_log_sender_stuck, a reported defect outside the C14 statement, C14_log_sender_recovers_refuted). Tie: the real handler on the root logger, the real security.connect over a scripted socket, a real LogSink from LogSinkFactory.buildProtocol per connection, seeded random histories with alias and real pickles.',
+    'note': 'Trusted: Coq kernel; hand-written models Frame.v/Shake.v + correspondence driver drive_frame.py (fake transport honouring "no data after loseConnection", recording pickle.loads shim, table-driven PGP oracle, frozen clock/random for the challenge); Twisted delivers dataReceived calls sequentially and none after loseConnection or after an exception escaped; pickle decides decodable/closing per payload (oracles). Sender study: hand-written model LogSend.v + driver drive_logsend.py (scripted socket.socket under dawgie.security, no-op PGP exchange security._send/_recv, scripted time.time and recording pickle shims inside logging.handlers, recorder in place of the file handler of LogSinkFactory, a logging.Filter that names the record security.connect logs; beyond the end of the connect script connections are refused and that record is filtered out); one clock reading per createSocket call; sendall either accepts everything or raises OSError after a strict prefix of the frame; what arrives of a connection is a prefix of what sendall accepted; makePickle never raises. No axioms.',
+    'technique': 'Coq proof over executable models (receiver loop, handshake wrapper, blocking client, log sender composed with the receiver) + model/implementation correspondence (exhaustive small scope + seeded random; scripted socket, clock and connect outcomes for the sender)',
 }
 
 CHANS = ('farm', 'db', 'log')
@@ -1221,7 +1221,10 @@ def run(ctx):
         'pickles; non-trivial = some chunk boundary falls inside a length prefix or a payload. '
         'handshake: scenario (first word, lengths, signature, echo) x cut positions incl. extra '
         'bytes in the packet of phase 5; non-trivial = a phase failed or bytes followed p5 in '
-        'the same chunk')
+        'the same chunk. log sender: seeded histories of emit/close events with scripts for the '
+        'connect outcomes (ok / OSError / other exception, records logged meanwhile), the sendall '
+        'failures (bytes accepted before the error), the clock, and per connection the bytes lost and '
+        'the chunking at the receiver; non-trivial = anything but an undisturbed connection')
     ctx.trust(
         'hand-written models coq/Model/Frame.v, coq/Model/Shake.v (tied by the correspondence below)',
         'driver tools/harness/drive_frame.py: fake transport (no data after loseConnection or an '
@@ -1229,13 +1232,20 @@ def run(ctx):
         'table-driven PGP oracle, frozen clock/random behind the challenge text',
         'oracles of the model: closing(p) = unpickled request.func not in [acquire, dbcopy] (db only); '
         'decodable(p) = loads(p) returns (LogSink: and is a dict); verify/echo_ok per blob',
+        'hand-written model coq/Model/LogSend.v of TwistedHandler + python 3.12 logging.handlers.SocketHandler, '
+        'tied by driver tools/harness/drive_logsend.py: scripted socket.socket under dawgie.security (connect '
+        'outcomes, records logged during connect, sendall failures), no-op security._send/_recv, scripted '
+        'time.time and recording pickle shims inside logging.handlers, recorder behind LogSinkFactory, '
+        'a logging.Filter naming the record security.connect logs',
     )
     ctx.assume(
         'Twisted: dataReceived calls of one connection are sequential; none after '
         'transport.loseConnection(); an exception escaping dataReceived drops the connection',
         'struct.unpack(">I")/pack(">I") = be32/enc32; bytes slicing = firstn/skipn',
-        'not covered: TLS path (no wrapper), client side blocking receive (message.receive, '
-        'Connector.__do), what _process/do/handle do with a delivered message',
+        'not covered: TLS path (no wrapper), what _process/do/handle do with a delivered message',
+        'log sender: one time.time() reading per createSocket call; sendall accepts all bytes or raises '
+        'OSError after a strict prefix of the frame; the bytes that arrive are a prefix of the accepted '
+        'ones; makePickle does not raise; emits of one handler are serialised by its lock',
     )
     fps = fingerprints()
     ctx.note('fingerprints', fps)
